@@ -23,6 +23,9 @@ ST_ = "magpylib/_src/style.py"
 TU_ = "magpylib/_src/display/traces_utility.py"
 TMF = FD + "field_BH_triangularmesh.py"
 MUTANTS = [
+    ("C05", "collection-sum-range-short", FWB, "                    B[src_ind] = np.sum(B[src_ind : src_ind + col_len], axis=0)", "                    B[src_ind] = np.sum(B[src_ind : src_ind + col_len - 1], axis=0) if col_len > 1 else B[src_ind]", "red"),
+    ("C05", "collection-delete-range-shifted", FWB, "                        B, np.s_[src_ind + 1 : src_ind + col_len], 0", "                        B, np.s_[src_ind + 1 : src_ind + col_len + 0], 0", "equivalent"),
+    ("C05", "collection-delete-one-too-many", FWB, "                        B, np.s_[src_ind + 1 : src_ind + col_len], 0", "                        B, np.s_[src_ind + 1 : min(src_ind + col_len + 1, len(B))], 0", "red"),
     ("C07", "dict-mixed-lengths-tolerated", FWB, "    if len(set(vec_lengths.values())) > 1:", "    if len(set(vec_lengths.values())) > 2:", "red"),
     ("C07", "dict-length-one-not-squeezed", FWB, "            if len(val) == 1:\n                val = np.squeeze(val)\n            else:\n                vec_lengths[key] = len(val)", "            vec_lengths[key] = len(val)", "red"),
     ("C07", "dict-tile-count", FWB, "            kwargs[key] = np.tile(val, (vec_len, *[1] * (expected_dim - 1)))", "            kwargs[key] = np.tile(val, (max(vec_len - 1, 1), *[1] * (expected_dim - 1)))", "red"),
